@@ -13,7 +13,12 @@
 //!                   is a field; (b) every 4- and 8-byte word at 4-byte steps of every maximal non-payload run (from
 //!                   both ends of the run), (c) differential writes (two objects that differ in one parameter) label
 //!                   the words with the parameter(s) they encode.
-//! Each faulty stream is fed to a fresh receiver (same dimensions but other radix / seeds / Galois element / degrees /
+//!  * `receiver_reuse` - ONE receiver per (type, parameters) is taken through every history of depth <= 2 (quick) /
+//!                   3 (thorough) over {small valid objects, the large valid object that fills its allocation,
+//!                   truncated streams, header-corrupted streams}: a well-formed stream that fits the ALLOCATED
+//!                   capacity must be accepted whatever was read before (`valid_stream_rejected_after_history`) and
+//!                   reproduce its source; after an Err the receiver is unchanged; invariants after every step.
+//! In the first three families each faulty stream is fed to a fresh receiver (same dimensions but other radix / seeds / Galois element / degrees /
 //! distribution, so that a change is visible; and one that is larger in every capacity dimension) inside `guarded`.
 //!
 //! Oracle (failure kinds): `read_from` never panics (`panic_overflow`, `panic_alloc`, `panic_other`); after EITHER
@@ -1281,6 +1286,292 @@ fn exec_header<S: Subject>(cx: &mut Cx, tier: Tier) {
     }
 }
 
+// ------------------------------------------------------------------------------------------------ family: receiver_reuse
+
+/// One step of a history on a single receiver.
+struct Action<S: Subject> {
+    name: String,
+    bytes: Vec<u8>,
+    /// Some: a well-formed stream of an object that fits the receiver's allocation (index into `sources`)
+    valid: Option<usize>,
+    truncated: bool,
+    _p: std::marker::PhantomData<S>,
+}
+
+struct SourceObj {
+    stream: Vec<u8>,
+    shapes: Vec<Shape>,
+    lay: Layout,
+}
+
+fn source_obj<S: Subject>(p: &P, seed: u64) -> Result<SourceObj, String> {
+    let o: S = make(p, 0, seed)?;
+    let stream = ser(&o)?;
+    let mut shapes = vec![];
+    guarded(|| o.shapes(&mut shapes)).map_err(|e| format!("source shapes: {e}"))?;
+    let lay = layout::<S>(p, 0)?;
+    if lay.len != stream.len() {
+        return Err("layout length mismatch".into());
+    }
+    Ok(SourceObj {
+        stream,
+        shapes,
+        lay,
+    })
+}
+
+/// Node of the history tree: the receiver after `history`, what it must look like, and the layout of its own stream.
+struct Node<'a> {
+    history: Vec<usize>,
+    obs: Obs,
+    /// layout of the receiver's current stream; None after a faulty stream was accepted (then only the dimensions and
+    /// the stream length are compared after a later Err)
+    lay: Option<&'a Layout>,
+}
+
+fn unknown_layout(len: usize) -> Layout {
+    Layout {
+        segs: vec![],
+        header: vec![false; len],
+        len,
+    }
+}
+
+fn exec_reuse<S: Subject>(cx: &mut Cx, depth: usize) {
+    let p = cx.case.p;
+    let none = json!({});
+    // the receiver: allocated for `p`, other radix and metadata
+    let built = (|| -> Result<(Receiver<S>, Vec<SourceObj>, Vec<String>), String> {
+        let recv = Receiver::<S>::build(&alt_of(&p), 1, 2)?;
+        let mut sources = vec![source_obj::<S>(&p, 11)?];
+        let mut names = vec!["large".to_string()];
+        // small objects: one step smaller in the first reducible capacity dimension, and in all of them
+        let mut smalls: Vec<(String, P)> = vec![];
+        for d in S::CAP {
+            if let Some(q) = p.reduce(*d)
+                && admissible::<S>(&q)
+            {
+                smalls.push((format!("small:{}", d.name()), q));
+                break;
+            }
+        }
+        let mut all = p;
+        for d in S::CAP {
+            if let Some(q) = all.reduce(*d)
+                && admissible::<S>(&q)
+            {
+                all = q;
+            }
+        }
+        if all != p && !smalls.iter().any(|(_, q)| *q == all) {
+            smalls.push(("small:all".into(), all));
+        }
+        for (i, (n, q)) in smalls.iter().enumerate() {
+            sources.push(source_obj::<S>(q, 12 + i as u64)?);
+            names.push(n.clone());
+        }
+        Ok((recv, sources, names))
+    })();
+    let (recv, sources, names) = match built {
+        Ok(x) => x,
+        Err(e) => {
+            cx.rec.add("cases_without_valid_baseline", 1);
+            let f = finding("roundtrip_mismatch", e.clone(), json!({"error": e}));
+            cx.fail("write_to+read_from", &f, &[], &none, &none);
+            return;
+        }
+    };
+    // alphabet
+    let mut acts: Vec<Action<S>> = vec![];
+    for (i, n) in names.iter().enumerate().skip(1) {
+        acts.push(Action {
+            name: n.clone(),
+            bytes: sources[i].stream.clone(),
+            valid: Some(i),
+            truncated: false,
+            _p: std::marker::PhantomData,
+        });
+    }
+    acts.push(Action {
+        name: "large".into(),
+        bytes: sources[0].stream.clone(),
+        valid: Some(0),
+        truncated: false,
+        _p: std::marker::PhantomData,
+    });
+    let large = &sources[0];
+    let l = large.stream.len();
+    let mut cuts: Vec<usize> = vec![];
+    if let Some(s) = large.lay.segs.get(1) {
+        cuts.push(s.off);
+    }
+    if l >= 1 {
+        cuts.push(l - 1);
+    }
+    cuts.dedup();
+    for t in cuts {
+        acts.push(Action {
+            name: format!("truncated_large@{t}/{l}"),
+            bytes: large.stream[..t].to_vec(),
+            valid: None,
+            truncated: true,
+            _p: std::marker::PhantomData,
+        });
+    }
+    {
+        let fields = fields_of::<S>(&p, &large.lay, &large.stream, Tier::Quick);
+        let traced8: Vec<&Field> = fields.iter().filter(|f| f.traced && f.w == 8).collect();
+        let mut picks: Vec<(&Field, &str)> = vec![];
+        if let Some(f) = traced8.iter().find(|f| !f.label.is_empty()).or(traced8.first()) {
+            picks.push((f, "v_plus_1"));
+            picks.push((f, "2^61"));
+        }
+        // the byte-length word that ends the first header run
+        if let Some(f) = traced8.iter().find(|f| f.run_len_word.is_some() && large.lay.segs.iter().any(|s| s.payload && s.off == f.off + 8)) {
+            picks.push((f, "v_minus_1"));
+        }
+        for (f, class) in picks {
+            let mut vb = [0u8; 8];
+            vb.copy_from_slice(&large.stream[f.off..f.off + 8]);
+            let v = u64::from_le_bytes(vb);
+            if let Some((_, x)) = dictionary(v, 8, f.run_len_word, Tier::Thorough).into_iter().find(|(c, _)| *c == class) {
+                let mut b = large.stream.clone();
+                b[f.off..f.off + 8].copy_from_slice(&x.to_le_bytes());
+                acts.push(Action {
+                    name: format!("corrupt_large@{}+8[{}]={class}", f.off, f.label),
+                    bytes: b,
+                    valid: None,
+                    truncated: false,
+                    _p: std::marker::PhantomData,
+                });
+            }
+        }
+    }
+    cx.rec.add("receivers", 1);
+    cx.rec.add("alphabet", acts.len() as u64);
+    cx.rec.sample(|| json!({"type": S::NAME, "p": p, "alphabet": acts.iter().map(|a| a.name.clone()).collect::<Vec<_>>(), "depth": depth}));
+
+    let limit = recv.limit(l);
+    // rebuild the receiver of a history by replaying it on a fresh one (types without Clone)
+    let rebuild = |history: &[usize]| -> S {
+        let mut r = recv.fresh();
+        for a in history {
+            let _ = feed(&mut r, &acts[*a].bytes);
+        }
+        r
+    };
+    let mut states: std::collections::HashSet<u64> = std::collections::HashSet::new();
+    let fresh_lay = &recv.lay;
+    let root_state = recv.fresh();
+    let root = Node {
+        history: vec![],
+        obs: observe(&root_state, limit),
+        lay: Some(fresh_lay),
+    };
+    // depth-first over all action sequences up to `depth`
+    let mut stack: Vec<(Node, Option<S>)> = vec![(root, Some(root_state))];
+    while let Some((node, state)) = stack.pop() {
+        let state: S = match state {
+            Some(s) => s,
+            None => rebuild(&node.history),
+        };
+        if let Ok(s) = &node.obs.snap {
+            states.insert(fnv(s));
+        }
+        if node.history.len() >= depth {
+            continue;
+        }
+        let prev_len = node.obs.snap.as_ref().map(|s| s.len()).unwrap_or(0);
+        let unk = unknown_layout(prev_len);
+        for (ai, act) in acts.iter().enumerate() {
+            let mut r: S = state.clone_opt().unwrap_or_else(|| rebuild(&node.history));
+            let (out, consumed) = feed(&mut r, &act.bytes);
+            cx.rec.evals(1);
+            cx.rec.add("transitions", 1);
+            let hist_names: Vec<&str> = node.history.iter().map(|a| acts[*a].name.as_str()).collect();
+            cx.rec.distinct(fnv(format!("{}|{:?}|{:?}|{}", S::NAME, p, node.history, ai).as_bytes()));
+            cx.rec.outcome(outcome_hash(S::NAME, &out));
+            let inner = json!({"history": hist_names, "step": act.name, "depth": node.history.len() + 1});
+            let tags = [("steps", act.name.split('@').next().unwrap_or("").to_string()), ("history_len", node.history.len().to_string())];
+            let obs1 = observe(&r, limit);
+            let mut next_lay: Option<&Layout> = None;
+            match (&out, act.valid) {
+                (Outcome::Panic(m), _) => {
+                    let f = finding(panic_kind(m), norm(m), json!({"panic": m}));
+                    cx.fail("read_from(history)", &f, &tags, &inner, &none);
+                    continue;
+                }
+                (Outcome::Err(e), Some(_)) => {
+                    // the stream is well-formed and fits the receiver's allocation: what was read before must not matter
+                    let kind = if node.history.is_empty() { "roundtrip_rejected" } else { "valid_stream_rejected_after_history" };
+                    let f = finding(kind, norm(e), json!({"error": e}));
+                    cx.fail("read_from(history)", &f, &tags, &inner, &none);
+                }
+                (Outcome::Ok, Some(si)) => {
+                    let src = &sources[si];
+                    let mut why = vec![];
+                    if consumed != src.stream.len() {
+                        why.push(format!("reader consumed {consumed} of {} bytes", src.stream.len()));
+                    }
+                    if let Ok(s) = &obs1.snap
+                        && *s != src.stream
+                    {
+                        why.push(format!("re-serialised stream differs at byte {:?}", (0..s.len().min(src.stream.len())).find(|&i| s[i] != src.stream[i])));
+                    }
+                    if let Ok(sh) = &obs1.shapes {
+                        let a: Vec<_> = sh.iter().map(|s| s.logical()).collect();
+                        let b: Vec<_> = src.shapes.iter().map(|s| s.logical()).collect();
+                        if a != b {
+                            why.push(format!("dimensions {a:?} != source {b:?}"));
+                        }
+                    }
+                    if !why.is_empty() {
+                        let f = finding("roundtrip_mismatch", format!("after history: {}", why.join("; ")), json!({}));
+                        cx.fail("read_from(history)", &f, &tags, &inner, &none);
+                    }
+                    next_lay = Some(&src.lay);
+                }
+                (Outcome::Ok, None) => {
+                    if act.truncated {
+                        let f = finding("accepted_truncated", "Ok on a strict prefix of a valid stream", json!({}));
+                        cx.fail("read_from(history)", &f, &tags, &inner, &none);
+                    }
+                    // an accepted faulty stream: the receiver's stream layout is no longer known
+                }
+                (Outcome::Err(_), None) => {
+                    next_lay = node.lay;
+                }
+            }
+            if matches!((&out, act.valid), (Outcome::Err(_), Some(_))) {
+                next_lay = node.lay;
+            }
+            let model = ReceiverModel {
+                obs0: &node.obs,
+                caps: &recv.caps,
+                lay: node.lay.unwrap_or(&unk),
+            };
+            for f in post_check(&out, &model, &obs1, &act.bytes, consumed) {
+                cx.fail("read_from(history)", &f, &tags, &inner, &none);
+            }
+            let mut h = node.history.clone();
+            h.push(ai);
+            if h.len() < depth || depth == 0 {
+                stack.push((
+                    Node {
+                        history: h,
+                        obs: obs1,
+                        lay: next_lay,
+                    },
+                    Some(r).filter(|r| r.clone_opt().is_some()),
+                ));
+            } else if let Ok(s) = &obs1.snap {
+                states.insert(fnv(s));
+            }
+        }
+    }
+    cx.rec.add("states", states.len() as u64);
+}
+
 // ------------------------------------------------------------------------------------------------ run / replay
 
 fn dispatch(fam: &'static str, tier: Tier, case: &Case, rec: &mut Rec, col: &Collector, obs: &Collector) {
@@ -1297,6 +1588,7 @@ fn dispatch(fam: &'static str, tier: Tier, case: &Case, rec: &mut Rec, col: &Col
         "roundtrip" => with_subject!(case.ty.as_str(), exec_roundtrip(cxr)),
         "truncation" => with_subject!(case.ty.as_str(), exec_truncation(cxr)),
         "header" => with_subject!(case.ty.as_str(), exec_header(cxr, tier)),
+        "receiver_reuse" => with_subject!(case.ty.as_str(), exec_reuse(cxr, tier.pick(2, 3))),
         o => panic!("unknown family {o}"),
     }
     col.merge(cx.local_fail);
@@ -1308,7 +1600,10 @@ fn cases(tier: Tier, fam: &str, grids: &BTreeMap<String, Vec<P>>) -> Vec<Case> {
     // simplest first: types in DRIVERS order (hal, then core wrappers, then composite keys)
     for ty in DRIVERS {
         for p in &grids[*ty] {
-            let recvs: &[Recv] = if fam == "roundtrip" { &[Recv::Alt] } else { &[Recv::Alt, Recv::Larger] };
+            let recvs: &[Recv] = if fam == "roundtrip" || fam == "receiver_reuse" { &[Recv::Alt] } else { &[Recv::Alt, Recv::Larger] };
+            if fam == "receiver_reuse" && p.shrink > 0 {
+                continue;
+            }
             for r in recvs {
                 if fam != "roundtrip" && !tier.is_thorough() && *r == Recv::Larger && p.shrink > 0 {
                     continue;
@@ -1367,6 +1662,7 @@ pub fn run(run: &mut Run) {
         ("roundtrip", "distinct = (type, receiver kind, parameters); receivers: same, alt_metadata, larger per capacity dimension, larger:all, exact_active_size, smaller per dimension"),
         ("truncation", "distinct = (type, parameters, receiver, segment cut, cut at segment start or inside); every length 0..L-1"),
         ("header", "distinct = (type, receiver, field label, width, traced, value class); every field x every dictionary entry"),
+        ("receiver_reuse", "all histories up to depth 2 (quick) / 3 (thorough) on ONE receiver per (type, parameters) over {small valid objects, large valid object, truncated streams, header-corrupted streams}; distinct = (type, parameters, history, step); counters `transitions` = steps executed and checked, `states` = distinct receiver states (by re-serialised stream) reached"),
     ] {
         if !run.wants(fam) {
             continue;
@@ -1377,6 +1673,12 @@ pub fn run(run: &mut Run) {
         run.family(fam, rule, cs, |c, rec| dispatch(fam, tier, c, rec, &col, &obs));
         col.flush(run, fam);
         obs.flush_notes(run, fam);
+        if fam == "receiver_reuse"
+            && let Some(f) = run.families.iter().rev().find(|f| f.name == fam)
+        {
+            run.states += f.rec.extra.get("states").copied().unwrap_or(0);
+            run.transitions += f.rec.extra.get("transitions").copied().unwrap_or(0);
+        }
     }
 }
 
@@ -1385,6 +1687,7 @@ pub fn replay(run: &mut Run, d: &Value) {
         "roundtrip" => "roundtrip",
         "truncation" => "truncation",
         "header" => "header",
+        "receiver_reuse" => "receiver_reuse",
         o => panic!("unknown family {o}"),
     };
     let case: Case = serde_json::from_value(d["case"].clone()).expect("case");
